@@ -1,6 +1,7 @@
 package njcheck
 
 import (
+	"os"
 	"encoding/json"
 	"fmt"
 	"regexp"
@@ -381,6 +382,9 @@ func (s *Seq) explain(q *Rq, a, b Ans, d Diff, x *xctx) []string {
 				cnt[BodyIDOf(e)]--
 			}
 			ok, n := true, 0
+			if os.Getenv("C16_DEBUG") != "" {
+				fmt.Fprintf(os.Stderr, "DBG explain query-scan: cnt=%v untyped=%v body=%s kind=%s\n", cnt, s.untyped, q.Body, x.kind)
+			}
 			for id, c := range cnt {
 				if c < 0 {
 					ok = false
